@@ -88,6 +88,28 @@ pub fn run_engine_initial(config: &Config, exceptions: &LocalExceptions) -> RunO
 /// One validation run with the real engine (collector on or off).
 pub fn run_engine(config: &Config, update: bool, exceptions: &LocalExceptions) -> RunOut { run_engine_with(config, update, exceptions, false) }
 
+/// One validation the way the one-shot commands drive it (`operation.rs`,
+/// `Vrps::run`): a retryable failure is followed by `Engine::sanitize` and one
+/// more run.  Returns the outcome and whether the retry happened.
+pub fn run_engine_retrying(config: &Config, exceptions: &LocalExceptions) -> (RunOut, bool) {
+    let failed = |e| RunOut { snapshot: None, metrics: None, error: Some(e) };
+    let mut engine = match Engine::new(config, true) { Ok(e) => e, Err(_) => return (failed(RunFailed::fatal()), false) };
+    if engine.ignite().is_err() { return (failed(RunFailed::fatal()), false) }
+    let mut once = false;
+    loop {
+        match ValidationReport::process(&engine, config, false) {
+            Ok((report, mut metrics)) => {
+                let snap = report.into_snapshot(exceptions, &mut metrics);
+                return (RunOut { snapshot: Some(snap), metrics: Some(metrics), error: None }, once)
+            }
+            Err(e) => {
+                if e.should_retry() && !once && engine.sanitize().is_ok() { once = true; continue }
+                return (failed(e), once)
+            }
+        }
+    }
+}
+
 fn run_engine_with(config: &Config, update: bool, exceptions: &LocalExceptions, initial: bool) -> RunOut {
     let mut engine = match Engine::new(config, update) {
         Ok(e) => e, Err(_) => return RunOut { snapshot: None, metrics: None, error: Some(RunFailed::fatal()) }
